@@ -122,6 +122,7 @@ def extend(cx, l: SList, other) -> None:
         other = SList(list(other))
     if not isinstance(other, SList):
         raise Unsupported("extend with a non-list")
+    was_empty_concrete = False
     if l.concrete:
         if l.items:
             raise Unsupported("extend of a non-empty concrete list by an abstract list")
@@ -129,8 +130,16 @@ def extend(cx, l: SList, other) -> None:
         l.items = None
         l.length = 0
         l.elem = None
+        was_empty_concrete = True
     if "rec_fields" in l.ghost or "elem_term" in l.ghost:
         raise Unsupported("extend on a record/term list")
+    # lists of containers (contracts/search.py) are tracked by the sequence they flatten to
+    if "flat" in other.ghost and ("flat" in l.ghost or was_empty_concrete):
+        mine = l.ghost.get("flat")
+        l.ghost["flat"] = other.ghost["flat"] if mine is None else z3.Concat(mine, other.ghost["flat"])
+        l.elem = None
+    else:
+        l.ghost.pop("flat", None)
     l.length = int_binop("+", l.length, list_len(other))
 
 
